@@ -402,6 +402,16 @@ func c18(ctx *Ctx) (*Outcome, error) {
 				inv: &cli.Inv{Files: []batch.File{{Path: "shape.json", Data: []byte(sh.text)}}, Args: args}})
 		}
 	}
+	// an element that cannot be generated, inside a member of every composition layout (after a definition that is
+	// referenced twice, nested below a member, in the first / middle / last member ...): the run must fail
+	for _, sh := range faultShapes() {
+		for ai, extra := range [][]string{nil, {"--only-models"}} {
+			args := append(append([]string{"-p", "faulty", "-o", "out/gen.go"}, extra...), "shape.json")
+			doc, _ := jsonx.Parse([]byte(sh.text))
+			jobs = append(jobs, &c18job{class: "fault-" + sh.class, label: fmt.Sprintf("%s (args %d)", sh.label, ai), outFile: "out/gen.go", must: true, doc: doc, path: pathToKey(doc, "bad"),
+				inv: &cli.Inv{Files: []batch.File{{Path: "shape.json", Data: []byte(sh.text)}}, Args: args, Seed: map[string][]byte{"out/gen.go": []byte(sentinel)}}})
+		}
+	}
 	for _, sh := range defaultShapes() {
 		for ai, extra := range [][]string{nil, {"--only-models"}, {"--extra-imports", "--min-sized-ints"}} {
 			args := append(append([]string{"-p", "valid", "-o", "out/gen.go"}, extra...), "shape.json")
@@ -618,6 +628,70 @@ func compositionShapes() []compShape {
 	return out
 }
 
+// pathToKey finds the first object member called key (depth first) and returns the path to its value.
+func pathToKey(v any, key string) []any {
+	switch t := v.(type) {
+	case jsonx.Obj:
+		for _, kv := range t {
+			if kv.K == key {
+				return []any{key}
+			}
+			if p := pathToKey(kv.V, key); p != nil {
+				return append([]any{kv.K}, p...)
+			}
+		}
+	case []any:
+		for i, e := range t {
+			if p := pathToKey(e, key); p != nil {
+				return append([]any{i}, p...)
+			}
+		}
+	}
+	return nil
+}
+
+// faultShapes: an ungeneratable element (unknown type, reference to a missing definition, empty enum) as a property of
+// an inline object member B of a composition, for every layout of the other members.
+func faultShapes() []compShape {
+	faults := []struct{ name, text string }{{"unknown-type", `{"type":"decimal"}`}, {"missing-definition", `{"$ref":"#/$defs/Missing"}`}, {"empty-enum", `{"enum":[]}`}}
+	defs := `"Obj":{"type":"object","properties":{"w":{"type":"integer"}}},"Prim":{"type":"string","maxLength":3},"Other":{"type":"object","properties":{"o":{"type":"string"}}}`
+	var out []compShape
+	for _, f := range faults {
+		b := `{"type":"object","properties":{"bad":` + f.text + `}}`
+		obj, prim, other := `{"$ref":"#/$defs/Obj"}`, `{"$ref":"#/$defs/Prim"}`, `{"$ref":"#/$defs/Other"}`
+		layouts := []struct{ name, text string }{
+			{"anyOf-alone", `{"anyOf":[` + b + `]}`},
+			{"anyOf-after-ref", `{"anyOf":[` + obj + `,` + b + `]}`},
+			{"anyOf-after-same-ref-twice", `{"anyOf":[` + obj + `,` + obj + `,` + b + `]}`},
+			{"anyOf-after-same-prim-ref-twice", `{"anyOf":[` + prim + `,` + prim + `,` + b + `]}`},
+			{"anyOf-between-same-ref", `{"anyOf":[` + obj + `,` + b + `,` + obj + `]}`},
+			{"anyOf-first", `{"anyOf":[` + b + `,` + obj + `,` + obj + `]}`},
+			{"anyOf-after-two-refs", `{"anyOf":[` + obj + `,` + other + `,` + b + `]}`},
+			{"anyOf-nested-below-member", `{"anyOf":[` + prim + `,{"type":"object","properties":{"inner":{"anyOf":[` + prim + `,` + b + `]}}}]}`},
+			{"anyOf-nested-in-items", `{"anyOf":[` + obj + `,{"type":"object","properties":{"members":{"type":"array","items":{"anyOf":[` + obj + `,` + b + `]}}}}]}`},
+			{"allOf-after-ref", `{"allOf":[` + obj + `,` + b + `]}`},
+			{"allOf-after-same-ref-twice", `{"allOf":[` + obj + `,` + obj + `,` + b + `]}`},
+			{"allOf-first", `{"allOf":[` + b + `,` + obj + `]}`},
+			{"allOf-in-anyOf", `{"anyOf":[` + obj + `,{"allOf":[` + obj + `,` + b + `]}]}`},
+		}
+		for _, l := range layouts {
+			positions := []struct{ name, text string }{
+				{"property", `{"type":"object","properties":{"p":` + l.text + `},"$defs":{` + defs + `}}`},
+				{"items", `{"type":"object","properties":{"p":{"type":"array","items":` + l.text + `}},"$defs":{` + defs + `}}`},
+				{"definition", `{"type":"object","properties":{"p":{"$ref":"#/$defs/C"}},"$defs":{"C":` + l.text + `,` + defs + `}}`},
+				{"typed-definition", `{"type":"object","properties":{"p":{"$ref":"#/$defs/C"}},"$defs":{"C":{"type":"object",` + l.text[1:] + `,` + defs + `}}`},
+				// (the map form: next to declared properties only the type keyword of additionalProperties is read - recorded
+				// finding addprop-container-lax -, its schema is not a generated position)
+				{"map-values", `{"type":"object","properties":{"m":{"type":"object","additionalProperties":` + l.text + `}},"$defs":{` + defs + `}}`},
+			}
+			for _, pos := range positions {
+				out = append(out, compShape{class: f.name + ":" + l.name + "@" + pos.name, label: fmt.Sprintf("%s in %s at %s", f.name, l.name, pos.name), text: pos.text})
+			}
+		}
+	}
+	return out
+}
+
 // defaultShapes enumerates a default keyword next to every kind of schema (incl. objects with every form of
 // additionalProperties) x default values of every JSON kind x positions. Whether such a default is honoured is not the
 // point here (C09); the generator must come back with output or a diagnostic.
@@ -712,6 +786,51 @@ func c18Explain(ctx *Ctx, j *c18job, problem string) string {
 						}
 					}
 				}
+			}
+		}
+	}
+	// the same recorded finding at the other position that is generated through the declared path: the value schema of
+	// a map (additionalProperties of an object WITHOUT declared properties), possibly below items: .../additionalProperties/
+	// (items/)*(anyOf|allOf)/<n>/... with a holder that has no type / properties / enum of its own
+	if ctx.Known.Has("untyped-composition-definition") {
+		at := func(n int) any {
+			var cur any = j.doc
+			for _, seg := range j.path[:n] {
+				switch t := cur.(type) {
+				case jsonx.Obj:
+					if k, isStr := seg.(string); isStr {
+						cur, _ = t.Get(k)
+					}
+				case []any:
+					if k, isInt := seg.(int); isInt && k < len(t) {
+						cur = t[k]
+					}
+				}
+			}
+			return cur
+		}
+		for i := 1; i < len(j.path); i++ {
+			if k, ok := j.path[i].(string); !ok || (k != "anyOf" && k != "allOf") {
+				continue
+			}
+			b := i
+			for b > 0 && j.path[b-1] == "items" {
+				b--
+			}
+			if b == 0 || j.path[b-1] != "additionalProperties" {
+				continue
+			}
+			holder, _ := at(b - 1).(jsonx.Obj)
+			comp, _ := at(i).(jsonx.Obj)
+			if holder == nil || comp == nil {
+				continue
+			}
+			_, hasProps := holder.Get("properties")
+			_, hasT := comp.Get("type")
+			_, hasP := comp.Get("properties")
+			_, hasE := comp.Get("enum")
+			if !hasProps && !hasT && !hasP && !hasE {
+				return "untyped-composition-definition"
 			}
 		}
 	}
